@@ -19,7 +19,7 @@ seeds="$@"; [ -z "$seeds" ] && seeds=$(ls $SRC/seeded | grep -v '^retired$')
 for s in $seeds; do
   S=$SRC/seeded/$s
   [ -f $S/patch.diff ] || continue
-  git -C $MX/repo checkout -q -- . ; git -C $MX/repo clean -qfd
+  git -C $MX/repo reset -q --hard HEAD ; git -C $MX/repo clean -qfd
   if ! git -C $MX/repo apply $S/patch.diff 2>/dev/null && ! { git -C $MX/repo apply -3 $S/patch.diff >/dev/null 2>&1 && git -C $MX/repo reset -q; }; then printf "%s\t-\tpatch-does-not-apply\t\n" $s >> $OUT; continue; fi
   if ! (cd $MX/repo && go build ./... && go build -tags verif ./...) >/dev/null 2>&1; then printf "%s\t-\tdoes-not-build\t\n" $s >> $OUT; continue; fi
   if ! (cd $MX/repo && timeout 600 go test -vet=off -count=1 ./... >/dev/null 2>&1); then printf "%s\t-\tsuite-fails\t\n" $s >> $OUT; fi
